@@ -9,6 +9,27 @@ from .stochastic import Stochastic
 from .token import SmilesToken
 
 
+def _token_matches(mol, pattern, token):
+    """
+    All distinct ways to lay a token onto the molecule.
+
+    A symmetric token can be laid onto the same atoms in several orientations,
+    which differ in the atoms its bond descriptors end up on.
+    The default (uniquified) substructure search returns an arbitrary one of them.
+    """
+    matches = []
+    known = set()
+    for match in mol.GetSubstructMatches(pattern, uniquify=False, maxMatches=100000):
+        key = (
+            frozenset(match),
+            tuple(match[bd.atom_bonding_to] for bd in token.bond_descriptors),
+        )
+        if key not in known:
+            known.add(key)
+            matches.append(match)
+    return matches
+
+
 def get_starting_tokens(smiles, big_mol):
     start_element = big_mol.elements[0]
     start_fragments = []
@@ -103,7 +124,7 @@ class PossibleMatch:
         self._element_weights = [RememberAdd(0.0) for _ in range(self._Nelements)]
         self._open_atoms = []
 
-        possible_substructures = mol.GetSubstructMatches(pattern)
+        possible_substructures = _token_matches(mol, pattern, token)
         if substructure in possible_substructures:
             open_atoms = self._find_open_atoms(substructure, token)
             self._add_new_open_atoms(open_atoms)
@@ -293,7 +314,7 @@ class PossibleMatch:
             new_full = []
             pattern = Chem.MolFromSmiles(token.generate_smiles_fragment(), params.removeHs)
 
-            for substructure in match._mol.GetSubstructMatches(pattern):
+            for substructure in _token_matches(match._mol, pattern, token):
                 open_atom_idx = id_open_atom(substructure, match, atom.new_atom)
                 if open_atom_idx is not None:
                     possible_bd = id_bond_descriptor(
@@ -385,7 +406,7 @@ def get_prob(smiles, big_mol):
     starting_token, starting_prob = get_starting_tokens(smiles, big_mol)
     for token, prob in zip(starting_token, starting_prob):
         pattern = Chem.MolFromSmiles(token.generate_smiles_fragment(), params.removeHs)
-        possible_substructures = mol.GetSubstructMatches(pattern)
+        possible_substructures = _token_matches(mol, pattern, token)
         for substructure in possible_substructures:
             match = PossibleMatch(mol, big_mol, substructure, token, prob)
             if match.possible:
